@@ -1,4 +1,5 @@
-(* C53 -- lemmas, part A: the Lame closed form solves the boundary value problem; shape functions. *)
+(* C53 -- lemmas, part A (Coquelicot): the Lame closed form solves the boundary value problem; shape functions
+   (partition of unity, nodal interpolation, derivative consistency). *)
 From Coq Require Import ZArith QArith Reals List Lra Lia.
 From Coquelicot Require Import Coquelicot.
 From C53 Require Import C53Spec C53Model.
@@ -20,7 +21,7 @@ Section Lame.
       ((lame_srr Ri Re Pi Pe r - nu * (lame_stt Ri Re Pi Pe r + s)) / E).
   Proof.
     intros Hr. pose proof den_pos as Hd.
-    unfold lame_u, lame_srr, lame_stt, lameA, lameB; cbv [lame_u_G lame_srr_G lame_stt_G lame_ezz_G lameA_G lameB_G RNum nadd nsub nmul ndiv nZ].
+    unfold lame_u, lame_srr, lame_stt, lameA, lameB; cbv [lame_u_G lame_srr_G lame_stt_G lame_u_AB lame_srr_AB lame_stt_AB lame_ezz_G lameA_G lameB_G RNum nadd nsub nmul ndiv nZ].
     auto_derive.
     - repeat split; try lra; nra.
     - field. repeat split; lra.
@@ -35,7 +36,7 @@ Section Lame.
     s = hooke E nu ezz du ur.
   Proof.
     intros Hr. pose proof den_pos as Hd. cbv zeta.
-    unfold hooke, lame_lambda, lame_mu, lame_ezz, lame_u, lame_srr, lame_stt, lameA, lameB; cbv [lame_u_G lame_srr_G lame_stt_G lame_ezz_G lameA_G lameB_G RNum nadd nsub nmul ndiv nZ].
+    unfold hooke, lame_lambda, lame_mu, lame_ezz, lame_u, lame_srr, lame_stt, lameA, lameB; cbv [lame_u_G lame_srr_G lame_stt_G lame_u_AB lame_srr_AB lame_stt_AB lame_ezz_G lameA_G lameB_G RNum nadd nsub nmul ndiv nZ].
     repeat split; field; repeat split; lra.
   Qed.
 
@@ -43,16 +44,16 @@ Section Lame.
     is_derive (lame_srr Ri Re Pi Pe) r ((lame_stt Ri Re Pi Pe r - lame_srr Ri Re Pi Pe r) / r).
   Proof.
     intros Hr. pose proof den_pos as Hd.
-    unfold lame_srr, lame_stt, lameA, lameB; cbv [lame_u_G lame_srr_G lame_stt_G lame_ezz_G lameA_G lameB_G RNum nadd nsub nmul ndiv nZ].
+    unfold lame_srr, lame_stt, lameA, lameB; cbv [lame_u_G lame_srr_G lame_stt_G lame_u_AB lame_srr_AB lame_stt_AB lame_ezz_G lameA_G lameB_G RNum nadd nsub nmul ndiv nZ].
     auto_derive.
     - repeat split; try lra; nra.
     - field. repeat split; lra.
   Qed.
 
   Lemma lame_inner : lame_srr Ri Re Pi Pe Ri = - Pi.
-  Proof. pose proof den_pos. unfold lame_srr, lameA, lameB; cbv [lame_u_G lame_srr_G lame_stt_G lame_ezz_G lameA_G lameB_G RNum nadd nsub nmul ndiv nZ]. field. split; lra. Qed.
+  Proof. pose proof den_pos. unfold lame_srr, lameA, lameB; cbv [lame_u_G lame_srr_G lame_stt_G lame_u_AB lame_srr_AB lame_stt_AB lame_ezz_G lameA_G lameB_G RNum nadd nsub nmul ndiv nZ]. field. split; lra. Qed.
   Lemma lame_outer : lame_srr Ri Re Pi Pe Re = - Pe.
-  Proof. pose proof den_pos. unfold lame_srr, lameA, lameB; cbv [lame_u_G lame_srr_G lame_stt_G lame_ezz_G lameA_G lameB_G RNum nadd nsub nmul ndiv nZ]. field. split; lra. Qed.
+  Proof. pose proof den_pos. unfold lame_srr, lameA, lameB; cbv [lame_u_G lame_srr_G lame_stt_G lame_u_AB lame_srr_AB lame_stt_AB lame_ezz_G lameA_G lameB_G RNum nadd nsub nmul ndiv nZ]. field. split; lra. Qed.
 
   Lemma lame_axial : exists Fz : R -> R,
     (forall r, Ri <= r <= Re -> is_derive Fz r (2 * PI * r * s)) /\ Fz Re - Fz Ri = PI * (Re * Re - Ri * Ri) * s.
@@ -117,13 +118,3 @@ Lemma cub_deriv : derivative_consistent (cub_sf RNum) (cub_dsf RNum).
 Proof. split; [reflexivity|]. intros i x Hi. simpl in Hi.
   split_nat i 4%nat; unf; (auto_derive; [exact I|field]). Qed.
 
-(* isoparametric map of an element with equally spaced nodes: r(x) = r0 + dr (x+1)/2, J = dr/2 *)
-Lemma lin_geom r0 dr x : interp RNum (lin_elem RNum) (elem_radii RNum (lin_elem RNum) r0 dr) x = r0 + dr * (x + 1) / 2
-  /\ dinterp RNum (lin_elem RNum) (elem_radii RNum (lin_elem RNum) r0 dr) x = dr / 2.
-Proof. unf. split; field. Qed.
-Lemma quad_geom r0 dr x : interp RNum (quad_elem RNum) (elem_radii RNum (quad_elem RNum) r0 dr) x = r0 + dr * (x + 1) / 2
-  /\ dinterp RNum (quad_elem RNum) (elem_radii RNum (quad_elem RNum) r0 dr) x = dr / 2.
-Proof. unf. split; field. Qed.
-Lemma cub_geom r0 dr x : interp RNum (cub_elem RNum) (elem_radii RNum (cub_elem RNum) r0 dr) x = r0 + dr * (x + 1) / 2
-  /\ dinterp RNum (cub_elem RNum) (elem_radii RNum (cub_elem RNum) r0 dr) x = dr / 2.
-Proof. unf. split; field. Qed.
